@@ -760,9 +760,10 @@ fn serde_values(out: &mut Out, rng: &mut Rng, tier: &Tier) {
     serde_kmers::<Kmer48>(out, rng, 1, 2 * reps);
     serde_kmers::<Kmer64>(out, rng, 0, 2 * reps);
     // DnaString
-    let mut lens: Vec<usize> = vec![0, 1, 2, 31, 32, 33, 63, 64, 65, 96, 128, 129];
+    // every length up to four blocks and a bit (block boundaries 32/64/96/128 and all tails), then random longer ones
+    let mut lens: Vec<usize> = (0..=131).collect();
     for _ in 0..reps {
-        lens.push(rng.below(200));
+        lens.push(132 + rng.below(400));
     }
     for len in lens {
         let bases: Vec<u8> = (0..len).map(|_| rng.base()).collect();
@@ -779,10 +780,8 @@ fn serde_values(out: &mut Out, rng: &mut Rng, tier: &Tier) {
         }
     }
     // Exts
-    let mut evs: Vec<u8> = vec![0, 1, 0x0f, 0xf0, 0xff, 0x80, 0x08];
-    for _ in 0..reps {
-        evs.push((rng.next() & 0xff) as u8);
-    }
+    // all 256 extension bytes
+    let evs: Vec<u8> = (0..=255u8).collect();
     for v in evs {
         let e = Exts::new(v);
         let text = json_text(&e);
